@@ -207,12 +207,19 @@ def run_protocol(rng, cases, dims, repeats, what):
     try:
         for c in range(cases):
             case = make_case(rng, *dims, full=(c % 5 == 4), mev=(c % 2 == 1), small=False)
-            ctx = make_context(case, tmp)
+            try:
+                ctx = make_context(case, tmp)
+            except Exception as e:
+                out.append({'case': c, 'context': describe(case), 'bad': [{'clause': 'valid-context-accepted', 'detail': f'{type(e).__name__}: {e}'[:300]}]})
+                continue
             for rep in range(repeats):
                 np.random.seed(int(rng.integers(2 ** 31 - 1)))      # pandas.sample draws from numpy's global state
-                db = ChoiceSetsGeneration(ctx).sample_and_merge(recycle=False)
                 n += len(case['ind'])
-                bad = check_protocol(case, db.data, what)
+                try:
+                    db = ChoiceSetsGeneration(ctx).sample_and_merge(recycle=False)
+                    bad = check_protocol(case, db.data, what)
+                except Exception as e:      # a valid context must yield a choice set
+                    bad = [{'clause': 'no-exception-on-a-valid-context', 'detail': f'{type(e).__name__}: {e}'[:300]}]
                 if bad:
                     out.append({'case': c, 'repeat': rep, 'context': describe(case), 'bad': bad[:4]})
                     break
@@ -322,17 +329,21 @@ def run_full(rng, cases, dims, repeats, model):
             ref = reference_ll(case, model, nests_ref)
             for rep in range(repeats):
                 np.random.seed(int(rng.integers(2 ** 31 - 1)))
-                db = ChoiceSetsGeneration(ctx).sample_and_merge(recycle=False)
-                gm = GenerateModel(ctx)
-                expr = (gm.get_logit() if model == 'logit' else
-                        gm.get_nested_logit(nests) if model == 'nested' else gm.get_cross_nested_logit())
-                got = np.asarray(expr.get_value_c(database=db, betas={}, aggregation=False, prepare_ids=True), dtype=float)
-                n += len(got)
+                n += len(ref)
                 problems = []
-                if got.shape != ref.shape or not np.all(np.abs(got - ref) <= TOL * np.maximum(1.0, np.abs(ref))):
+                try:
+                    db = ChoiceSetsGeneration(ctx).sample_and_merge(recycle=False)
+                    gm = GenerateModel(ctx)
+                    expr = (gm.get_logit() if model == 'logit' else
+                            gm.get_nested_logit(nests) if model == 'nested' else gm.get_cross_nested_logit())
+                    got = np.asarray(expr.get_value_c(database=db, betas={}, aggregation=False, prepare_ids=True), dtype=float)
+                except Exception as e:
+                    got = np.full(ref.shape, np.nan)
+                    problems.append({'clause': 'no-exception-on-a-valid-context', 'detail': f'{type(e).__name__}: {e}'[:300]})
+                if not problems and (got.shape != ref.shape or not np.all(np.abs(got - ref) <= TOL * np.maximum(1.0, np.abs(ref)))):
                     problems.append({'clause': f'sampled {model} log likelihood == full choice set (closed form)',
                                      'sampled': got.tolist(), 'full': ref.tolist()})
-                if model == 'logit' and rep == 0:
+                if model == 'logit' and rep == 0 and not problems:
                     full_b = biogeme_full_logit(case)
                     if not np.all(np.abs(got - full_b) <= TOL * np.maximum(1.0, np.abs(full_b))):
                         problems.append({'clause': 'sampled logit == biogeme loglogit on the full choice set',
